@@ -2177,6 +2177,24 @@ fn sweep_files<K: CKind>(ctx: &mut Ctx, st: &mut St<K>, va: &Val<K>, vb: &Val<K>
         let mut it = VecIterCtx::new(vec![CNamed { func: va.c, name: CStrT::of("f") }, CNamed { func: CFn::INVALID, name: CStrT::of("g") }]);
         let ok = unsafe { (api.manager_export_dddmp_with_names_iter)(cm, p, pl, it.iter(true), std::ptr::null(), std::ptr::null_mut()) };
         core.scalar(ctx, "manager_export_dddmp_with_names_iter", "m, <tmp>, [h, INVALID], NULL, NULL", ok, false);
+        // named export with the INVALID handle in the middle: the call fails, but what it wrote is the
+        // export of the valid functions under THEIR names
+        let cf3 = TmpFile::new("inv3.dddmp");
+        let tf3 = TmpFile::new("inv3t.dddmp");
+        let (p3, pl3) = cf3.ptr();
+        let three = [va.c, CFn::INVALID, vb.c];
+        let n3 = [CString::new("a").unwrap(), CString::new("b").unwrap(), CString::new("c").unwrap()];
+        let n3p = [n3[0].as_ptr(), n3[1].as_ptr(), n3[2].as_ptr()];
+        let mut err = zero_err();
+        let ok = unsafe { (api.manager_export_dddmp)(cm, p3, pl3, three.as_ptr(), 3, n3p.as_ptr(), &settings, &mut err) };
+        core.scalar(ctx, "manager_export_dddmp", "m, <tmp>, [h, INVALID, h'], [a, b, c], settings", (ok, take_err(err)), (false, "function 1 'b' is invalid".to_string()));
+        if !core.failed {
+            let tres = K::t_export(&core.tm, &tf3.0, &tfns, Some(&["a", "c"][..]), true);
+            if tres.is_ok() && cf3.bytes() != tf3.bytes() {
+                core.viol(ctx, "manager_export_dddmp", "wrong_value", &format!("named export of [h, INVALID, h'] as [a, b, c]: the file differs from the Rust API export of (h, a), (h', c):\n{}\nvs\n{}", String::from_utf8_lossy(&cf3.bytes()), String::from_utf8_lossy(&tf3.bytes())));
+            }
+            core.post(ctx, "manager_export_dddmp");
+        }
     }
 
     // export, open, header getters, import (C and twin import the same file)
